@@ -459,8 +459,17 @@ class Assign(Statement, AssignBase):
                 .map_expressions(mapper, include_lhs=include_lhs)
                 .copy(
                     loops=[
-                        (ident, mapper(start), mapper(end))
+                        (self._map_loop_identifier(mapper, ident)
+                            if include_lhs else ident,
+                            mapper(start), mapper(end))
                         for ident, start, end in self.loops]))
+
+    @staticmethod
+    def _map_loop_identifier(mapper, ident):
+        from pymbolic.primitives import Variable
+        mapped = mapper(Variable(ident))
+        assert isinstance(mapped, Variable)
+        return mapped.name
 
     def __str__(self):
         result = super().__str__()
